@@ -93,7 +93,9 @@ func (c *Ctx) N(quick, thorough int) int {
 	}
 	// VERIF_SCALE multiplies every random case count (deep sweeps); the
 	// fixed catalogues and enumerations are unaffected.
-	if s, err := strconv.ParseFloat(os.Getenv("VERIF_SCALE"), 64); err == nil && s > 0 {
+	// Only counts are scaled: values below 100 are structural parameters (a maximal sequence length, a
+	// sampling stride, a number of rounds), and a length that is an exponent must not be multiplied.
+	if s, err := strconv.ParseFloat(os.Getenv("VERIF_SCALE"), 64); err == nil && s > 0 && n >= 100 {
 		n = int(float64(n) * s)
 		if n < 1 {
 			n = 1
